@@ -70,3 +70,45 @@ pub mod stream_impl {
         }
     }
 }
+// ---- async I/O over an in-memory buffer (futures::io::Cursor + the AsyncReadExt / AsyncSeekExt methods nun-db uses)
+pub mod io {
+    use std::future::Future; use std::pin::Pin; use std::task::{Context, Poll};
+    pub use std::io::SeekFrom;
+    pub struct Cursor<T> { pub inner: T, pub pos: u64 }
+    impl<T> Cursor<T> {
+        pub fn new(inner: T) -> Cursor<T> { Cursor { inner, pos: 0 } }
+        pub fn position(&self) -> u64 { self.pos }
+        pub fn get_ref(&self) -> &T { &self.inner }
+    }
+    /// a future that is ready at once
+    pub struct IoDone<T> { pub v: Option<T> }
+    impl<T> Future for IoDone<T> {
+        type Output = T;
+        fn poll(self: Pin<&mut Self>, _cx: &mut Context<'_>) -> Poll<T> { let this = unsafe { self.get_unchecked_mut() }; Poll::Ready(this.v.take().unwrap()) }
+    }
+    pub trait AsyncReadExt { fn read(&mut self, buf: &mut [u8]) -> IoDone<std::io::Result<usize>>; }
+    pub trait AsyncSeekExt { fn seek(&mut self, pos: SeekFrom) -> IoDone<std::io::Result<u64>>; }
+    impl<T> AsyncReadExt for Cursor<T> where T: AsRef<[u8]> {
+        fn read(&mut self, buf: &mut [u8]) -> IoDone<std::io::Result<usize>> {
+            let data = self.inner.as_ref();
+            let len = data.len() as u64;
+            let start = if self.pos < len { self.pos } else { len };
+            let avail = (len - start) as usize;
+            let n = if buf.len() < avail { buf.len() } else { avail };
+            let mut j = 0; while j < n { buf[j] = data[start as usize + j]; j += 1; }
+            self.pos += n as u64;
+            IoDone { v: Some(Ok(n)) }
+        }
+    }
+    impl<T> AsyncSeekExt for Cursor<T> where T: AsRef<[u8]> {
+        fn seek(&mut self, pos: SeekFrom) -> IoDone<std::io::Result<u64>> {
+            match pos {
+                SeekFrom::Start(p) => { self.pos = p; }
+                SeekFrom::End(d) => { self.pos = (self.inner.as_ref().len() as i64 + d) as u64; }
+                SeekFrom::Current(d) => { self.pos = (self.pos as i64 + d) as u64; }
+            }
+            IoDone { v: Some(Ok(self.pos)) }
+        }
+    }
+}
+pub use io::{AsyncReadExt, AsyncSeekExt};
